@@ -1,20 +1,20 @@
 CONSTANTS
-  NK = 6
-  NV = 2
-  MaxVer = 8
-  MaxLen = 40
+  NK = 1500
+  NV = 3
+  MaxVer = 16
+  MaxLen = 30
   NR = 2
   Impl = "bptree"
-  SmallTree = TRUE
-  Opts <- OptsAll
+  SmallTree = FALSE
+  Opts <- Opts2
   Reads = TRUE
   BadArgs = TRUE
-  SvAlways = TRUE
+  SvAlways = FALSE
   Quiet = FALSE
-  FillSizes <- FillMid
+  FillSizes <- FillHuge
   Scripts <- NoScripts
 INIT Init
-NEXT NextSimF
+NEXT NextShapeSkelF
 VIEW View
 INVARIANTS TypeOK Contig WorkingRetained ReadersRetained CleanIsSaved NotRetainedIsBlank HkFunctional
 PROPERTIES SavedImmutable PruneKeepsRetained OnlyNext SessionDrop
